@@ -1659,12 +1659,12 @@ static int gen_builder_table_fields(fb_output_t *out, fb_compound_type_t *ct)
                 switch (member->nest->symbol.kind) {
                 case fb_is_table:
                     fb_compound_name((fb_compound_type_t *)(&member->nest->symbol), &snref);
-                    fprintf(out->fp, "__%sbuild_nested_table_root(%s, %s_%.*s, %s, %s_identifier, %s_type_identifier)\n",
+                    fprintf(out->fp, "__%sbuild_nested_table_root(%s, %s_%.*s, %s, %s_file_identifier, %s_type_identifier)\n",
                         nsc, nsc, snt.text, n, s, snref.text, snref.text, snref.text);
                     break;
                 case fb_is_struct:
                     fb_compound_name((fb_compound_type_t *)(&member->nest->symbol), &snref);
-                    fprintf(out->fp, "__%sbuild_nested_struct_root(%s, %s_%.*s, %s, %u, %s_identifier, %s_type_identifier)\n",
+                    fprintf(out->fp, "__%sbuild_nested_struct_root(%s, %s_%.*s, %s, %u, %s_file_identifier, %s_type_identifier)\n",
                         nsc, nsc, snt.text, n, s, snref.text,
                         (unsigned)((fb_compound_type_t *)(member->nest))->align, snref.text, snref.text);
                     break;
